@@ -33,6 +33,7 @@ PROP = {
  "selectors continuing a projection's right-hand side": ("C01", "former known finding C01-F1: parser.projection's own selector loop mis-parsed what follows the first element of a right-hand side: x[*][1:], x[*][*], x[?a][?b] applied the second selector without its projection or were rejected, x[*].{k: a}.k and x[*][0].a let the dotted field replace the node built so far (also C17, C19, C04)"),
  "to_number of an empty string": ("C02", "to_number('') and to_number('null') were 0 (decimal128's UnmarshalJSON accepts both silently); found when triaging a sub-agent's remark, the reference had listed them as unspecified"),
  "a float argument equal to 2^63": ("C14", "find_first('abc','c', float64(2^63)) searched from the start (toInt's range check v > math.MaxInt is false for 2^63, int(v) wrapped to MinInt64) while uint64 / decimal 2^63 give the conversion error (also C02); found when triaging a sub-agent's remark: C14's extremes harness had excluded floats above 2^53 even when exactly representable"),
+ "integer division of decimal operands floors": ("C14", "-7 // 2 was -4 for float64 operands (math.Floor) and -3 for JSON numbers, integers and decimals (truncating QuoRem): the result depended on the Go type carrying the numbers; C14's harness had restricted // to non-negative operands (remark of a sub-agent)"),
  "multi-select on a null value": ("C01", "`null` | [@, @] was null while `null` | [@] is [null]; a[*].[b] and a[*].{k: b} kept entries for null elements (also C17)"),
 }
 log = subprocess.check_output(['git','-C','/repo','log','--format=%h %s','--reverse']).decode().splitlines()
